@@ -51,6 +51,7 @@ THOROUGH = QUICK + [
     _c('window_straddle', 'contract_storage', dict(T=3, win_s=(-1, 2), wacc=True)),
     _c('day_grid_day_unit_T3', 'two_node', dict(T=3, freq='d', unit='d', wacc=True)),
 ]
+GRIDV_QUICK = [('two_node', 'day_d_cet_dst'), ('take_inside', 'month_d'), ('storage_onevar_cstore', 'day_h_useast_fall')]
 BOUNDS = dict(quick='shapes %s; T<=4; Level A (efficiencies/factors generic concrete)' % [c[0] for c in QUICK],
               thorough='shapes %s; T<=4; Level B for the *_B shapes' % [c[0] for c in THOROUGH])
 OUTSIDE = ['MIP storages, CHP/Plant, order books (C06, C20)', 'negative / mixed-sign transport capacities (EAO raises NotImplementedError)',
@@ -63,7 +64,15 @@ TRUSTED = ['vf/refmodel.py (reference model; imports nothing from eaopack)']
 
 def cases(tier, seed):
     lst = THOROUGH if tier == 'thorough' else QUICK
-    out = [(cid, dict(shape=SHAPE_OF[cid], kw=dict(kw), level=level)) for cid, kw, level in lst]
+    from .. import shapes
+    var = []
+    for cid, kw, level in lst:
+        if 'freq' in kw or 'unit' in kw or 'tz' in kw or level == 'B':
+            continue
+        for gv in shapes.GRID_VARIANTS:
+            if tier == 'thorough' or (cid, gv) in GRIDV_QUICK:
+                var.append(('%s@%s' % (cid, gv), dict(kw, gridv=gv), level))
+    out = [(cid, dict(shape=SHAPE_OF[cid.split('@')[0]], kw=dict(kw), level=level)) for cid, kw, level in lst + var]
     # assets with their own coarser frequency (volume limit = rate x covered length of the coarse interval): the reference is the real
     # fine problem plus the constant-rate equalities (C13 machinery)
     out.append(('coarse_contract_straddles_horizon_end', dict(shape='-', kw={}, level='coarse13', c13=dict(opt='coarse', kind='contract', T=5, win=(2, 9), ec=True))))
